@@ -207,7 +207,7 @@ def panic_class(rec):
 FINDING_CLASSES = [
     ("handler-not-a-closure-leaves-frames", [r"residue:handler-not-a-closure", r"history:handler-not-a-closure-twice"]),
     ("panic-while-jit-frames-are-active-aborts", [r"abort:panic-cannot-unwind.*"]),
-    ("caught-panic-leaves-engine-state", [r"after-panic:.*", r"(exit:4:|panic:|thread-panic:).*jit\.rs:jit_compile_lambda"]),
+    ("caught-panic-leaves-engine-state", [r"after-panic:.*", r"(not-reproduced:)?(exit:4:|panic:|thread-panic:).*jit\.rs:jit_compile_lambda"]),
     ("assert-builtin-panics", [r"panic:crates/steel-core/src/primitives/meta_ops\.rs:assert_truthy"]),
     ("builtin-indexes-args-without-arity-check",
      [r"panic:crates/steel-core/src/steel_vm/primitives\.rs:raise_error_from_error", r"panic:crates/steel-core/src/rvals\.rs:iterator_next",
@@ -230,7 +230,8 @@ FINDING_CLASSES = [
     ("mvector-index-unchecked", [r"panic:crates/steel-core/src/steel_vm/primitives\.rs:vector_(ref|set)"]),
     ("require-only-in-non-identifier-unwrap", [r"panic:crates/steel-core/src/compiler/modules\.rs:(compile_main|to_top_level_module)"]),
     ("module-level-non-identifier-binder-panics",
-     [r"panic:crates/steel-core/src/compiler/passes/analysis\.rs:(visit_lambda_function|visit_top_level_define_value_without_body)"]),
+     [r"panic:crates/steel-core/src/compiler/passes/analysis\.rs:(visit_lambda_function|visit_top_level_define_value_without_body|visit_define_without_body|visit_top_level_define_function_without_body)"]),
+    ("jit-no-translation-for-opcode-payload", [r"(panic|abort:panic-cannot-unwind):crates/steel-core/src/jit2/cgen\.rs:op_to_name_payload"]),
     ("thread-copy-inside-open-continuation-mark-assertion", [r"panic:crates/steel-core/src/steel_vm/vm\.rs:close"]),
     # (negative-count-becomes-huge: range-vec, repaired by /repo commit dbe72b10; a huge positive bound is an allocation request)
     ("make-struct-type-negative-field-count", [r"(hang|abort:out-of-memory):builtin:make-struct-type"]),
@@ -1065,7 +1066,10 @@ def run_histories(ctx, classes, stats):
     n_ok = 0
     hists = list(HISTORIES)
     # the multi-evaluation replays of the findings are histories too (no expectation beyond the property itself)
+    listed = listed_finding_ids()
     for p in sorted(glob.glob(os.path.join(C.VERIF, "findings", "C07-K07*.txt"))):
+        if os.path.basename(p)[4:-4] not in listed:
+            continue
         t = finding_replay_text(open(p, encoding="utf-8", errors="replace").read())
         if HSEP in t:
             hists.append(("finding-" + os.path.basename(p)[4:-4], [("T", x, None) for x in t.split(HSEP)]))
@@ -1311,8 +1315,11 @@ def corpus_texts():
         else:
             b = b"\n".join(l for l in b.split(b"\n") if not l.startswith(b"#!c07"))
         out.append(("corpus:" + fn, b))
-    # the replays of the findings are corpus entries too
+    # the replays of the listed findings (open or fixed) are corpus entries too
+    listed = listed_finding_ids()
     for p in sorted(glob.glob(os.path.join(C.VERIF, "findings", "C07-K07*.txt"))):
+        if os.path.basename(p)[4:-4] not in listed:
+            continue
         t = finding_replay_text(open(p, encoding="utf-8", errors="replace").read())
         if t and not t.startswith(";;; sweep job") and HSEP not in t:
             if t.startswith(MODMARK):
@@ -1320,6 +1327,19 @@ def corpus_texts():
             else:
                 out.append(("finding:" + os.path.basename(p), t.encode()))
     return out
+
+
+def listed_finding_ids():
+    """ids of the C07 findings that KNOWN_FINDINGS.txt mentions (open or fixed): their replay files are regression inputs;
+    a findings/C07-K07*.txt file that is not mentioned there yet is a proposal and is not run"""
+    ids = set()
+    try:
+        for line in open(os.path.join(C.VERIF, "KNOWN_FINDINGS.txt"), encoding="utf-8", errors="replace"):
+            if "property=C07" in line:
+                ids.update(re.findall(r"\b(K07[a-z]+)\b", line))
+    except OSError:
+        pass
+    return ids
 
 
 def finding_replay_text(content):
